@@ -7,3 +7,17 @@ claim("C13", "proof", "lock-order and blocking-under-lock analysis (must-hold lo
       "well ordered, so every call returns. This is a proof of the structural condition, not of liveness of syscalls.",
       "Assumes: VTA call graph sound for this program (no reflection/unsafe on these paths); lock classes merge all instances of a struct type (conservative); "
       "net.Listen*/Close syscalls return; Go mutexes are starvation-free.", "DESIGN.md §4 C13")
+
+claim("C10", "other", "CFG cut / must-pass-through queries and error-discipline analysis on SSA",
+      "Decides the control-flow skeleton of all-or-nothing reload on every path: start is cut by the success edges of read/parse/validate and starts the validated config; the old config is stopped and the "
+      "stop-function field overwritten only on the start-success edge and with start's own result; every fallible call in the start code has its error tested on an edge that returns non-nil (no failure is skipped); "
+      "the goroutine owning a generation's listener set closes it on the start-failure edge before it can block; the stop function signals that goroutine and awaits its close. Structural necessary conditions, not the run-time state after a reload.",
+      "Anchors found by role (the goroutine literal that allocates the listenerSet, its callers). Not decided: OS bind behaviour, YAML decoding, actual goroutine termination times.", "DESIGN.md §4 C10")
+claim("C11", "other", "CFG dominance/cut queries, reference-count pairing, reachability in the call graph",
+      "Decides on all paths: new config started before (and old stopped only after success of) start; in each shared-listener Acquire the socket is created only when absent, the handle count is incremented exactly once on success returns and never on failure returns, "
+      "count/socket are only accessed under the listener mutex, the socket is closed only on the count==0 edge after the decrement; and nothing reachable from the stream handler reacts to context cancellation, so cancelling the serve context at shutdown cannot interrupt relaying connections.",
+      "Not decided: kernel accept-queue behaviour during the overlap, timing, which generation handles a given connection at run time.", "DESIGN.md §4 C11")
+claim("C12", "other", "channel/select shape analysis of pump goroutines and handle methods; sibling agreement between handle types",
+      "Decides the structure that exactly-once delivery depends on, for every interleaving: one reader goroutine per socket creation; every blocking channel operation of a reader goroutine is a select arm next to a receive on a channel the last release closes (and the cancel arm closes a pending connection); "
+      "a reader answers a taken read request without another blocking socket call; on count==0 the socket is closed, the reader signalled and the manager callback run at most once; every handle method that blocks on the shared channel also waits on its close channel and excludes the closed state first.",
+      "Not decided: which handle receives which datagram under a schedule, OS-level re-bindability, select fairness.", "DESIGN.md §4 C12")
